@@ -25,7 +25,7 @@ CLAIMS = {
    text="Seeded search over goroutine schedules (6 scheduler policies over the instrumented tree: every go statement, channel operation, wait-group wait, mutex acquisition and OS call is a scheduling point), file-load completion orders, unique-key prefixes (random and adversarial), directory-listing orders, project locations, concurrent sibling builds and repeated rebuilds; every variant's OutputFiles (paths, bytes, hashes), metafile, mangle cache and diagnostics (text, location, notes, order) must equal a canonical-schedule reference byte for byte. Sampling, not proof; each failure is minimised and replayable from its tape.",
    ref="4.1", tech="deterministic simulation: seeded scheduler over instrumented esbuild, simulated disk/PRNG, differential comparison against a canonical-schedule reference"),
  "C09": dict(
-   text="Seeded edit histories (18 edit kinds incl. same-length edits, create/delete/rename, shadowing x.ts, nearer node_modules, file<->directory, package.json and tsconfig flips, syntax errors introduced and repaired, reordered imports; files appearing in and vanishing from directories that a glob-style import()/require() enumerates, starting missing, empty or populated) on a simulated disk with seeded mtime granularity, in-place vs replace writes and clock advances around the 3 s modification-key safety gap; after every step Rebuild() on one long-lived context must equal, byte for byte, a fresh build of the same disk snapshot run in its own bubble; in watch-mode runs every step that changes the fresh result must be reported dirty by the real watch predicates of the previous build; in watcher runs the real polling watcher goroutine runs on the simulated clock while edits land at arbitrary moments (also mid-build), and within 12 simulated seconds after the last edit the latest result delivered to an end callback must equal a fresh build of the final tree.",
+   text="Seeded edit histories (18 edit kinds incl. same-length edits, create/delete/rename, shadowing x.ts, nearer node_modules, file<->directory, package.json and tsconfig flips, syntax errors introduced and repaired, reordered imports; files appearing in and vanishing from directories that a glob-style import()/require() enumerates, starting missing, empty or populated) on a simulated disk with seeded mtime granularity, in-place vs replace writes and clock advances around the 3 s modification-key safety gap; after every step Rebuild() on one long-lived context must equal, byte for byte, a fresh build of the same disk snapshot run in its own bubble, and in builds that write, every output the rebuild reports must afterwards be on the simulated disk with the reported bytes (as it is after the fresh build); in watch-mode runs every step that changes the fresh result must be reported dirty by the real watch predicates of the previous build; in watcher runs the real polling watcher goroutine runs on the simulated clock while edits land at arbitrary moments (also mid-build), and within 12 simulated seconds after the last edit the latest result delivered to an end callback must equal a fresh build of the final tree.",
    ref="4.2", tech="deterministic simulation: edit-history generator on a simulated disk and clock, rebuild-vs-fresh-build reference model, real watch predicates through a virtual in-package accessor"),
  "C16": dict(
    text="The fault- and schedule-dependent part of C16: builds of generated multi-file projects during which the simulated disk fails, tears, truncates, bit-flips, NUL-fills or splices invalid UTF-8 into reads of any input kind (JS/TS/JSX/CSS/JSON/package.json/tsconfig.json/source-map comments), fails directory reads (when the directory is opened or when its entries are read), stats and readlinks, turns files into dangling or self-referring symbolic links, and during which a client cancels at a seeded scheduling point or exactly before a chosen poll of the cancel flag (including a sweep over every poll of one build); the build must return within a step budget, report no 'panic:'/'Internal error' diagnostic, leave no blocked goroutine behind (bubble deadlock detection), leave no slot of the process-wide open-file limiter taken when the run ends, and after the disk is healed a rebuild on the same context and process must equal a clean build. Input generation as such (fuzzing all byte strings) is not claimed.",
